@@ -6,6 +6,15 @@ import Sipsp.Proofs.CapacityPAI
 
 namespace Sipsp
 
+/-- every reported field of the identity list lies before the offset `o` -/
+structure PaIn (b : Buf) (o : Nat) (c : PPAIs) : Prop where
+  lhv : c.lastHVal.inside o
+  stored : ∀ k, k < c.n → k < c.vals.size → NaOut b o c.vals[k]!
+  lastI : NaOut b o c.last
+
+theorem PaIn.mono {b : Buf} {o o' : Nat} {c : PPAIs} (h : PaIn b o c) (h1 : o ≤ o') (h2 : o' ≤ b.size) : PaIn b o' c :=
+  ⟨PField.inside_mono h.lhv h1, fun k a1 a2 => (h.stored k a1 a2).mono h1 h2, h.lastI.mono h1 h2⟩
+
 structure PaSafe (b : Buf) (offs : Nat) (c : PPAIs) : Prop where
   ho : offs ≤ b.size
   cur : NaEntry b offs c.cur
@@ -14,6 +23,7 @@ structure PaSafe (b : Buf) (offs : Nat) (c : PPAIs) : Prop where
   stored : ∀ k, k < c.n → k < c.vals.size → NaFine b c.vals[k]!
   lastF : NaFine b c.last
   pnc : c.pnc = false
+  inn : PaIn b offs c
 
 structure PaOut (b : Buf) (c : PPAIs) : Prop where
   lhv : c.lastHVal.inside b.size
@@ -63,6 +73,34 @@ theorem paStep_out (b : Buf) (c : PPAIs) (pf : PFromBody) (lo o' : Nat) (hfit : 
     exact paSetCur_stored b c pf hst hpf.fine k hk hs
   · rw [paAccount_last]; exact paSetCur_lastF b c pf hlF hpf.fine
 
+theorem paSetCur_storedP (P : PFromBody → Prop) (c : PPAIs) (pf : PFromBody)
+    (h1 : ∀ k, k < c.n → k < c.vals.size → P c.vals[k]!) (h2 : P pf) :
+    ∀ k, k < c.n + 1 → k < c.vals.size → P (c.setCur pf).vals[k]! := by
+  intro k hk hs
+  by_cases hkn : k = c.n
+  · subst hkn; rw [paSetCur_get_n c pf hs]; exact h2
+  · rw [paSetCur_vals_ne c pf k (by omega)]; exact h1 k (by omega) hs
+
+theorem paSetCur_lastP (P : PFromBody → Prop) (c : PPAIs) (pf : PFromBody) (h1 : P c.last) (h2 : P pf) :
+    P (c.setCur pf).last := by
+  unfold PPAIs.setCur; split
+  · exact h1
+  · exact h2
+
+theorem paStep_in (b : Buf) (c : PPAIs) (pf : PFromBody) (lo o o' : Nat) (hfit : b.size ≤ 65535)
+    (hin : PaIn b o c) (hoo : o ≤ o') (hpf : NaOut b o' pf) (hl : c.lastHVal.inside lo) (hv : lo ≤ pf.v.offs)
+    (hp : c.pnc = false) : PaIn b o' ((c.setCur pf).account pf) := by
+  have s1 := paSetCur_scalars c pf
+  have ha := paAccount_safe b (c.setCur pf) pf lo o' hfit hpf (by rw [s1.2.1]; exact hl) hv (by rw [s1.2.2]; exact hp)
+  have hm := hin.mono hoo hpf.ho
+  refine ⟨ha.2, ?_, ?_⟩
+  · intro k hk hs
+    rw [paAccount_n, paSetCur_n] at hk
+    rw [paAccount_vals, paSetCur_size] at hs
+    rw [paAccount_vals]
+    exact paSetCur_storedP (NaOut b o') c pf hm.stored hpf k hk hs
+  · rw [paAccount_last]; exact paSetCur_lastP (NaOut b o') c pf hm.lastI hpf
+
 structure PaIdle (b : Buf) (c : PPAIs) : Prop where
   out : PaOut b c
   clean : PaClean c.wrap
@@ -76,10 +114,20 @@ theorem PaOut.wrap {b : Buf} {c : PPAIs} (h : PaOut b c) : PaOut b c.wrap := by
     · exact NaFine_new b
     · exact h.lastF
 
-theorem PaIdle.start {b : Buf} {c : PPAIs} (h : PaIdle b c) (o : Nat) (ho : o ≤ b.size) (k : Nat) :
-    PaSafe b o { c.wrap with hNo := k, lastHVal := {} } := by
+theorem PaIn.wrap {b : Buf} {o : Nat} {c : PPAIs} (h : PaIn b o c) (ho : o ≤ b.size) : PaIn b o c.wrap := by
+  obtain ⟨a1, a2, a3, a4, a5⟩ := paWrap_scalars c
+  refine ⟨by rw [a4]; exact h.lhv, fun k hk hs => ?_, ?_⟩
+  · rw [a1] at hk; rw [a2] at hs ⊢; exact h.stored k hk hs
+  · unfold PPAIs.wrap; split
+    · exact NaOut_new b o ho
+    · exact h.lastI
+
+theorem PaIdle.start {b : Buf} {c : PPAIs} (h : PaIdle b c) (o : Nat) (ho : o ≤ b.size) (k : Nat)
+    (hin : PaIn b o c) : PaSafe b o { c.wrap with hNo := k, lastHVal := {} } := by
   have hw := h.out.wrap
-  refine ⟨ho, ?_, h.clean, ⟨o, PField.inside_zero o, Nat.le_refl _, ?_⟩, hw.stored, hw.lastF, hw.pnc⟩
+  have hiw := hin.wrap ho
+  refine ⟨ho, ?_, h.clean, ⟨o, PField.inside_zero o, Nat.le_refl _, ?_⟩, hw.stored, hw.lastF, hw.pnc,
+    ⟨PField.inside_zero o, hiw.stored, hiw.lastI⟩⟩
   · show NaEntry b o c.wrap.cur
     rw [h.cur]; exact NaEntry_new b o ho
   · show VLo o c.wrap.cur
@@ -96,7 +144,8 @@ theorem parseOnePAI_under (b : Buf) (o : Nat) (pf : PFromBody) {n : Nat} {e : Er
 theorem paisLoop_safe (b : Buf) (offs : Nat) (c : PPAIs) (hfit : b.size ≤ 65535) (h : PaSafe b offs c) :
     PaOut b (paisLoop b offs c).2.2 ∧
     ((paisLoop b offs c).2.1 = .moreBytes → PaSafe b (paisLoop b offs c).1 (paisLoop b offs c).2.2) ∧
-    ((paisLoop b offs c).2.1 = .ok → PaIdle b (paisLoop b offs c).2.2 ∧ (paisLoop b offs c).1 ≤ b.size) ∧
+    ((paisLoop b offs c).2.1 = .ok → PaIdle b (paisLoop b offs c).2.2 ∧ (paisLoop b offs c).1 ≤ b.size ∧
+      PaIn b (paisLoop b offs c).1 (paisLoop b offs c).2.2) ∧
     (paisLoop b offs c).1 ≤ b.size := by
   induction hk : b.size - offs using Nat.strongRecOn generalizing offs c with
   | _ k ih =>
@@ -130,7 +179,9 @@ theorem paisLoop_safe (b : Buf) (offs : Nat) (c : PPAIs) (hfit : b.size ≤ 6553
       have hso := paStep_out b c pf lo next hfit h.stored h.lastF h.pnc hsafe.1 hl1 (hvd.1 (Or.inl rfl))
       have hf := (parseNameAddrPVal_post HdrPAI b offs c.cur hp0 (Or.inl rfl)).1
       have d := paDone_facts c pf h.clean hf
-      exact ⟨hso.1, (fun hh => by cases hh), (fun _ => ⟨⟨hso.1, d.2, d.1⟩, hsafe.1.ho⟩), hsafe.1.ho⟩
+      have hge : offs ≤ next := (naPVal_ok_range HdrPAI b offs c.cur h.ho hp0 (Or.inl rfl)).2.1
+      have hin := paStep_in b c pf lo offs next hfit h.inn hge hsafe.1 hl1 (hvd.1 (Or.inl rfl)) h.pnc
+      exact ⟨hso.1, (fun hh => by cases hh), (fun _ => ⟨⟨hso.1, d.2, d.1⟩, hsafe.1.ho, hin⟩), hsafe.1.ho⟩
     case moreValues =>
       have he : e0 = .moreValues := hmv0 rfl
       subst he
@@ -142,7 +193,7 @@ theorem paisLoop_safe (b : Buf) (offs : Nat) (c : PPAIs) (hfit : b.size ≤ 6553
       have hlh : (c.next pf).lastHVal.inside next := by unfold PPAIs.next; split <;> exact hso.2
       have hnsafe : PaSafe b next (c.next pf) := by
         refine ⟨hsafe.1.ho, by rw [hcl.2]; exact NaEntry_new b next hsafe.1.ho, hcl.1,
-          ⟨next, hlh, Nat.le_refl _, by rw [hcl.2]; exact Or.inl rfl⟩, ?_, ?_, ?_⟩
+          ⟨next, hlh, Nat.le_refl _, by rw [hcl.2]; exact Or.inl rfl⟩, ?_, ?_, ?_, ?_⟩
         · intro k hk hs
           rw [paNext_n] at hk
           rw [paNext_vals, paSetCur_size] at hs
@@ -152,6 +203,17 @@ theorem paisLoop_safe (b : Buf) (offs : Nat) (c : PPAIs) (hfit : b.size ≤ 6553
           · exact hso.1.lastF
           · exact NaFine_new b
         · unfold PPAIs.next; split <;> exact hso.1.pnc
+        · have hge : offs ≤ next := (naPVal_ok_range HdrPAI b offs c.cur h.ho hp0 (Or.inr rfl)).2.1
+          have hin := paStep_in b c pf lo offs next hfit h.inn hge hsafe.1 hl1 (hvd.1 (Or.inr rfl)) h.pnc
+          refine ⟨hlh, fun k hk hs => ?_, ?_⟩
+          · rw [paNext_n] at hk
+            rw [paNext_vals, paSetCur_size] at hs
+            rw [paNext_vals]
+            have := hin.stored k (by rw [paAccount_n, paSetCur_n]; exact hk) (by rw [paAccount_vals, paSetCur_size]; exact hs)
+            rw [paAccount_vals] at this; exact this
+          · unfold PPAIs.next; split
+            · exact hin.lastI
+            · exact NaOut_new b next hsafe.1.ho
       by_cases hg : offs < next ∧ next ≤ b.size
       · rw [if_pos hg]
         exact ih (b.size - next) (by omega) next (c.next pf) hnsafe rfl
@@ -164,8 +226,20 @@ theorem paisLoop_safe (b : Buf) (offs : Nat) (c : PPAIs) (hfit : b.size ≤ 6553
       have s1 := paSetCur_scalars c pf
       have hE := hsafe.2 rfl
       have hcs : PaSafe b next (c.setCur pf) := by
+        have hgeM : offs ≤ next := by
+          have := parseNameAddrPVal_more_range HdrPAI b offs c.cur (by
+            rcases h.cur with hc | hc
+            · exact Or.inl hc.1
+            · exact Or.inr ⟨hc.2.hi, hc.2.pend, hc.2.vend⟩) hp0
+          omega
+        have hmI := h.inn.mono hgeM hsafe.1.ho
         refine ⟨hsafe.1.ho, by rw [paSetCur_cur]; exact hE, ?_, ⟨lo, by rw [s1.2.1]; exact hl1, ?_, by rw [paSetCur_cur]; exact hvd.2 rfl⟩,
-          ?_, paSetCur_lastF b c pf h.lastF hsafe.1.fine, by rw [s1.2.2]; exact h.pnc⟩
+          ?_, paSetCur_lastF b c pf h.lastF hsafe.1.fine, by rw [s1.2.2]; exact h.pnc,
+          ⟨by rw [s1.2.1]; exact hmI.lhv,
+           (fun k hk hs => by
+              rw [paSetCur_n] at hk; rw [paSetCur_size] at hs
+              rw [paSetCur_vals_ne c pf k (by omega)]; exact hmI.stored k hk hs),
+           paSetCur_lastP (NaOut b next) c pf hmI.lastI hsafe.1⟩⟩
         · refine ⟨fun k h1 h2 => ?_, fun h1 => ?_⟩
           · rw [paSetCur_n] at h1; rw [paSetCur_size] at h2
             rw [paSetCur_vals_ne c pf k (by omega)]; exact h.clean.1 k h1 h2
@@ -199,7 +273,8 @@ theorem PaSafe.wrap {b : Buf} {o : Nat} {c : PPAIs} (h : PaSafe b o c) : PaSafe 
       unfold PPAIs.cur; rw [if_neg (by show ¬ c.n < c.vals.size; omega)]
     obtain ⟨lo, hl1, hl2, _⟩ := h.lo
     exact ⟨h.ho, by rw [hcur]; exact NaEntry_new b o h.ho, ⟨h.clean.1, fun _ => rfl⟩,
-      ⟨lo, hl1, hl2, by rw [hcur]; exact Or.inl rfl⟩, h.stored, NaFine_new b, h.pnc⟩
+      ⟨lo, hl1, hl2, by rw [hcur]; exact Or.inl rfl⟩, h.stored, NaFine_new b, h.pnc,
+      ⟨h.inn.lhv, h.inn.stored, NaOut_new b o h.ho⟩⟩
   · exact h
 
 theorem paBump_wrap (c : PPAIs) (k : Nat) :
@@ -209,23 +284,26 @@ theorem paBump_wrap (c : PPAIs) (k : Nat) :
 theorem parseAllPAIValues_safe (b : Buf) (o : Nat) (c : PPAIs) (hfit : b.size ≤ 65535) (h : PaSafe b o c) :
     PaOut b (parseAllPAIValues b o c).2.2 ∧
     ((parseAllPAIValues b o c).2.1 = .moreBytes → PaSafe b (parseAllPAIValues b o c).1 (parseAllPAIValues b o c).2.2) ∧
-    ((parseAllPAIValues b o c).2.1 = .ok → PaIdle b (parseAllPAIValues b o c).2.2 ∧ (parseAllPAIValues b o c).1 ≤ b.size) ∧
+    ((parseAllPAIValues b o c).2.1 = .ok → PaIdle b (parseAllPAIValues b o c).2.2 ∧ (parseAllPAIValues b o c).1 ≤ b.size ∧
+      PaIn b (parseAllPAIValues b o c).1 (parseAllPAIValues b o c).2.2) ∧
     (parseAllPAIValues b o c).1 ≤ b.size := by
   rw [parseAllPAIValues_eq_wrap]
   exact paisLoop_safe b o c.wrap hfit h.wrap
 
 theorem parseAllPAIValues_safe_new (b : Buf) (o : Nat) (c : PPAIs) (k : Nat) (hfit : b.size ≤ 65535)
-    (ho : o ≤ b.size) (h : PaIdle b c) :
+    (ho : o ≤ b.size) (h : PaIdle b c) (hin : PaIn b o c) :
     PaOut b (parseAllPAIValues b o { c with hNo := k, lastHVal := {} }).2.2 ∧
     ((parseAllPAIValues b o { c with hNo := k, lastHVal := {} }).2.1 = .moreBytes →
       PaSafe b (parseAllPAIValues b o { c with hNo := k, lastHVal := {} }).1
         (parseAllPAIValues b o { c with hNo := k, lastHVal := {} }).2.2) ∧
     ((parseAllPAIValues b o { c with hNo := k, lastHVal := {} }).2.1 = .ok →
       PaIdle b (parseAllPAIValues b o { c with hNo := k, lastHVal := {} }).2.2 ∧
-      (parseAllPAIValues b o { c with hNo := k, lastHVal := {} }).1 ≤ b.size) ∧
+      (parseAllPAIValues b o { c with hNo := k, lastHVal := {} }).1 ≤ b.size ∧
+      PaIn b (parseAllPAIValues b o { c with hNo := k, lastHVal := {} }).1
+        (parseAllPAIValues b o { c with hNo := k, lastHVal := {} }).2.2) ∧
     (parseAllPAIValues b o { c with hNo := k, lastHVal := {} }).1 ≤ b.size := by
   rw [parseAllPAIValues_eq_wrap, paBump_wrap]
-  exact paisLoop_safe b o _ hfit (h.start o ho k)
+  exact paisLoop_safe b o _ hfit (h.start o ho k hin)
 
 theorem PaIdle_new (b : Buf) : PaIdle b ({} : PPAIs) := by
   have hw : (({} : PPAIs)).wrap = {} := by unfold PPAIs.wrap; simp [PFromBody.parsed]
@@ -236,6 +314,9 @@ theorem PaIdle_new (b : Buf) : PaIdle b ({} : PPAIs) := by
     have : j = 0 ∨ j = 1 := by omega
     rcases this with rfl | rfl <;> rfl
   · rw [hw]; rfl
+
+theorem PaIn_new (b : Buf) (o : Nat) (ho : o ≤ b.size) : PaIn b o ({} : PPAIs) :=
+  ⟨PField.inside_zero _, (fun j hj => by cases hj), NaOut_new b o ho⟩
 
 theorem PaSafe.idleOut {b : Buf} {o : Nat} {c : PPAIs} (h : PaSafe b o c) : PaOut b c := by
   obtain ⟨lo, hl1, hl2, _⟩ := h.lo
